@@ -12,7 +12,7 @@ import time
 from pathlib import Path
 
 ROOT = Path(__file__).resolve().parent.parent          # /verif (checkout-relative)
-REPO = Path(os.environ.get("VERIF_REPO", "/repo"))
+REPO = Path(os.environ.get("VERIF_REPO") or "/repo")
 PY = os.environ.get("VERIF_PYTHON", "/venv/bin/python")
 DEPS = ROOT / ".deps"
 WORK = ROOT / ".work"
